@@ -1,6 +1,6 @@
 (* Correspondence judge for C11: a case is a history of operations on one Namespace (starting empty)
    with, for every step, the observed output and the observed __dict__ tree (stored names). *)
-From JV Require Import Lib.Base Model.Ns Model.NsRun Spec.NestedDict Spec.NestedDictRun Gen.C11Clash.
+From JV Require Import Lib.Base Model.Ns Model.NsRun Model.NsGuard Spec.NestedDict Spec.NestedDictRun Gen.C11Clash.
 
 Fixpoint val_eqb (fuel : nat) (a b : val) : bool :=
   match fuel with
@@ -28,13 +28,6 @@ Definition out_eqb (a b : out) : bool :=
   | _, _ => false
   end.
 
-Definition unmark_out (o : out) : out :=
-  match o with
-  | OutVal v => OutVal (unmark_val DEPTH v)
-  | OutItems l => OutItems (map (fun kv => (fst kv, unmark_val DEPTH (snd kv))) l)
-  | x => x
-  end.
-
 Fixpoint all2 {A B} (f : A -> B -> bool) (a : list A) (b : list B) : bool :=
   match a, b with
   | [], [] => true
@@ -51,13 +44,19 @@ Definition agree_model (c : case) : bool :=
 Definition agree_spec (c : case) : bool :=
   all2 (fun (s : out * sdict) (o : out * alist) =>
               out_eqb (fst s) (unmark_out (fst o))
-              && veq (node_val (Branch (snd s))) (unmark_val DEPTH (VNs (snd o))))
+              && veq (node_val (Branch (snd s))) (unmark_val (VNs (snd o))))
            (run_spec [] (c_ops c)) (c_obs c).
 
-(* class 1: some addressed path met a dict-valued leaf (outside the guard of ns_refines_dict) *)
+(* v_class is hist_class, the very function whose value 0 is the hypothesis of
+   Properties/C11.v:ns_refines_dict:
+     0 = inside the theorem;
+     1 = some addressed path met a dict-valued leaf (known finding path-through-dict);
+     2 = ill-formed key or value (never generated: would be reported if the spec disagrees);
+     3 = history uses update(namespace) / as_dict / Namespace(dict), which the theorem does not cover
+         (model- and spec-agreement are still demanded of every such case) *)
 Definition judge1 (c : case) : verdict :=
   {| v_model := agree_model c;
-     v_class := if snd (run_model clash_names [] (c_ops c)) then 1 else 0;
+     v_class := hist_class clash_names (c_ops c);
      v_spec := agree_spec c |}.
 
 Definition judge (cs : list case) := judge_all judge1 cs.
